@@ -328,6 +328,7 @@ class Sim:
         return self.cfg["p_hook"]
 
     state_hook_arg = None
+    prop_id = "C??"  # set by the check that runs the simulation
     replay_hook_failed = frozenset()  # (families that inject should_replay failures install a set)
 
     def hook_raise_p(self, label, hname):
@@ -848,6 +849,16 @@ class Sim:
                             self.judge()
                         except Violation as v:
                             self.violation = v
+                    if self.violation is None and not self.harness_errors:
+                        # a library task that spun inside one loop iteration (SimLivelock, raised by the reader
+                        # seam): outside the simulator that process burns a core and serves nobody, whatever
+                        # property is being looked at
+                        for name, err in self.dead_tasks():
+                            if err.startswith("SimLivelock"):
+                                self.violation = Violation(
+                                    "progress", f"{self.prop_id}/library-task-spins-without-yielding/{name.split('.')[-1]}",
+                                    f"{name} never yielded to the event loop again: {err}")
+                                break
                 finally:
                     self.teardown()
         except HarnessError:
